@@ -177,6 +177,14 @@ func judgeC12Fixed(r *seqRun) {
 	if r.ref.DontCare != "" {
 		return
 	}
+	// the package-level default governs ApplyIndent exactly as it governs Apply
+	if r.p.UseDefaults && r.obs.Panic == "" && r.obs.DecodeErr == "" {
+		oi := r.exec("\t")
+		r.ctx.Count("indent_variant_runs", 1)
+		if oi.Panic == "" && ((oi.Err == "") != (r.obs.Err == "") || oi.IsCopySize != r.obs.IsCopySize || oi.IsMissing != r.obs.IsMissing || oi.IsTestFailed != r.obs.IsTestFailed) {
+			r.viol("indent-variant-differs", "indent-variant-differs:"+r.lastKind(), fmt.Sprintf("with the same package-level defaults Apply gives err=%q but ApplyIndent gives err=%q (out=%q)", r.obs.Err, oi.Err, oi.Out))
+		}
+	}
 	if r.obs.Panic != "" {
 		r.viol("panic", "panic:"+impl.PanicSite(r.obs.Panic), r.obs.Panic)
 		return
